@@ -1,6 +1,7 @@
 package checks
 
 import (
+	"os"
 	"fmt"
 	"math"
 	"math/rand"
@@ -182,8 +183,14 @@ func (c *Ctx) c06Long() {
 			}
 		}
 	}
+	npair := len(cases)
+	for i := 0; i+1 < npair; i += 2 {
+		if in := cases[i].Input; len(in) <= 700 && i%8 < 4 {
+			cases = append(cases, &mon.Case{ID: cases[i].ID + "/dbg", Pkg: cases[i].Pkg, Input: in, Memo: true, DebugQuiet: true, MaxExpr: 5000000, MaxEvents: 50})
+		}
+	}
 	res := bt.Run(cases, batch.RunOpts{})
-	for i := 0; i+1 < len(cases); i += 2 {
+	for i := 0; i+1 < npair; i += 2 {
 		st, pl := res[cases[i].ID], res[cases[i+1].ID]
 		u := info[cases[i].ID]
 		c.Eval(2)
@@ -203,6 +210,15 @@ func (c *Ctx) c06Long() {
 		if st.ChoiceEvals > bound {
 			c.Report(&Violation{Class: "C06/memo-bound-long", Summary: fmt.Sprintf("under Memoize(true) %d choice expressions were evaluated (sum of Stats.ChoiceAltCnt) on an input of %d bytes, more than #choices x (len+1) = %d x %d = %d: some (expression, offset) pairs are evaluated more than once; grammar %q", st.ChoiceEvals, len(in), nch, len(in)+1, bound, gast.Short(u.G)),
 				Grammar: u.Text, Input: in, Case: cases[i]})
+		}
+		if dbg := res[cases[i].ID+"/dbg"]; dbg != nil && !dbg.Timeout {
+			// Debug(true) on the same long input (matches of some hundred bytes are printed in the trace):
+			// same result, and the caller's input buffer is what it was
+			c.CovAdd("long_inputs_under_debug", 1)
+			if dbg.Val != pl.Val || dbg.ErrNil != pl.ErrNil || dbg.InputChanged || dbg.Touched != "" {
+				c.Report(&Violation{Class: "C06/long-debug-differs", Summary: fmt.Sprintf("Debug(true) changes the result of a parse of a %d-byte input (value equal: %t, error-nil equal: %t, input buffer changed: %t %s); grammar %q", len(in), dbg.Val == pl.Val, dbg.ErrNil == pl.ErrNil, dbg.InputChanged, dbg.Touched, gast.Short(u.G)),
+					Grammar: u.Text, Input: in, Case: cases[i]})
+			}
 		}
 		if st.Val != pl.Val || st.ErrNil != pl.ErrNil {
 			c.Report(&Violation{Class: "C06/long-options-differ", Summary: fmt.Sprintf("Memoize with and without Statistics disagree on a long input; grammar %q", gast.Short(u.G)), Grammar: u.Text, Input: in, Case: cases[i]})
@@ -284,6 +300,11 @@ func c06StrataOld() []*gast.Grammar {
 
 // C16: MaxExpressions bounds every parse.
 func C16(c *Ctx) {
+	if os.Getenv("PV_C16_ONLY_DEEP") != "" {
+		// (development aid: run only the deep-nesting mini-check)
+		c.c16Deep()
+		return
+	}
 	c.Rule("grammars including non-terminating ones on purpose (repetitions over bodies that can succeed without consuming: (e?)*, (&e)*, (e*)+, ...) and terminating ones; budgets n from 1 to beyond the unbounded count, x Recover on/off; " +
 		"oracle: the model with the same budget predicts the exact step at which the budget trips, hence the value (nil), the 'max number of expressions parsed' error as last error (or the propagated panic under Recover(false)), the block trace up to that step and ExprCnt; an unexhausted budget must give the unbounded model's result. " +
 		"Memoize/Debug/Statistics variants are decided differentially against a large-budget run of the same configuration (C16B). A case that does not return is reported from the in-child watchdog with two samples of the live expression counter. " +
@@ -331,6 +352,73 @@ func C16(c *Ctx) {
 	}
 	c.ModelCheck(&icfg)
 	c.c16B()
+	c.c16Deep()
+}
+
+// c16Deep: "with a budget that is not exhausted the result is identical to the unbounded parse" on
+// inputs that nest rules thousands of levels deep (real vs real: the same parse with a practically
+// unlimited budget, and under Debug(true) at a smaller depth).
+func (c *Ctx) c16Deep() {
+	g := &gast.Grammar{Rules: []*gast.Rule{
+		{Name: "S", Expr: gast.S(gast.Ref("N"), gast.NotE(gast.Dot()))},
+		{Name: "N", Expr: gast.C(gast.S(gast.L("("), gast.Ref("N"), gast.L(")")), gast.S(gast.L("["), gast.Ref("N"), gast.L("]")), gast.A(gast.L("x"), 1, mon.Spec{R: 2}))},
+	}}
+	g.Finalize()
+	bt := c.BuildUnits([]*gast.Grammar{g}, [][]string{{}, {"-optimize-parser"}}, false, nil)
+	defer bt.Close()
+	var cases []*mon.Case
+	type key struct {
+		u  *Unit
+		d  int
+		ok bool
+	}
+	info := map[string]key{}
+	for _, u := range bt.Units {
+		if !u.OK {
+			c.Broken("the deep-nesting grammar of C16 does not build: " + u.Fail)
+			return
+		}
+		for _, d := range []int{500, 3000, 6000, 11000, 16000, 24000} {
+			for _, closed := range []bool{true, false} {
+				in := []byte(strings.Repeat("([", d/2) + "x" + strings.Repeat("])", d/2))
+				if !closed {
+					in = in[:len(in)-1]
+				}
+				base := fmt.Sprintf("%s/deep%d/%t", u.Pkg, d, closed)
+				info[base] = key{u, d, closed}
+				cases = append(cases, &mon.Case{ID: base + "/unbounded", Pkg: u.Pkg, Input: in, NoTrace: true},
+					&mon.Case{ID: base + "/budget", Pkg: u.Pkg, Input: in, MaxExpr: 1 << 40, NoTrace: true})
+				if d <= 6000 && !u.HasFlag("-optimize-parser") {
+					cases = append(cases, &mon.Case{ID: base + "/budget-debug", Pkg: u.Pkg, Input: in, MaxExpr: 1 << 40, DebugQuiet: true, NoTrace: true},
+						&mon.Case{ID: base + "/budget-memo", Pkg: u.Pkg, Input: in, MaxExpr: 1 << 40, Memo: true, NoTrace: true})
+				}
+			}
+		}
+	}
+	res := bt.Run(cases, batch.RunOpts{MaxDeaths: 3})
+	for base, k := range info {
+		ref := res[base+"/unbounded"]
+		if ref == nil || ref.Died != "" || ref.Timeout {
+			c.Inconclusive("deep_unbounded_parse_did_not_finish")
+			continue
+		}
+		for _, v := range []string{"/budget", "/budget-debug", "/budget-memo"} {
+			r := res[base+v]
+			if r == nil {
+				continue
+			}
+			c.Eval(1)
+			c.CovAdd("deep_nesting_parses_with_an_unexhausted_budget", 1)
+			if r.Died != "" || r.Timeout {
+				c.Inconclusive("deep_budget_parse_did_not_finish")
+				continue
+			}
+			if r.Val != ref.Val || r.ErrNil != ref.ErrNil || r.ErrStr != ref.ErrStr {
+				c.Report(&Violation{Class: "C16/deep-unexhausted-budget-differs", Summary: fmt.Sprintf("rules nested %d deep (input closed: %t, flags [%s]): the parse with MaxExpressions(1<<40)%s returns (%s, %q), the unbounded parse (%s, %q)", k.d, k.ok, k.u.FlagID, strings.TrimPrefix(v, "/budget"), trunc(r.Val), trunc(r.ErrStr), trunc(ref.Val), trunc(ref.ErrStr)),
+					Grammar: k.u.Text, Flags: k.u.Flags})
+			}
+		}
+	}
 }
 
 func c16Strata() []*gast.Grammar {
